@@ -82,7 +82,7 @@ func genServerRoleInput(c *Chooser) c06input {
 	}
 	tail := make([]byte, 1+c.Pick(64, "tail-len"))
 	prfFill(0x7a11, 0, tail)
-	k := c.Pick(16, "input-kind")
+	k := c.Pick(17, "input-kind")
 	switch k {
 	case 0, 1, 2:
 		return c06input{Class: "VALID", Kind: "valid", Bytes: []byte(validA() + validU()), Tail: tail}
@@ -104,6 +104,12 @@ func genServerRoleInput(c *Chooser) c06input {
 			"\"" + c06Version + "\"", c06Version + " " + c06Version, "v1.0.0;" + c06Version, c06Version[1:]}
 		v := bad[c.Pick(len(bad), "bad-version")]
 		return c06input{Class: "INVALID", Kind: "unsupported-version", Bytes: []byte(genAnnounce(c, v, "X-SOCKETACE") + validU())}
+	case 16:
+		// a request line that is as long as the read buffer (4096) or a little more or less, padded with
+		// blanks, with header-looking text at its end and no header lines: it offers no version at all
+		pad := 4088 + c.Pick(16, "line-pad")
+		line := "X-SOCKETACE / HTTP/1.1" + strings.Repeat(" ", pad-22) + "Accepts-Protocol-Version: " + c06Version
+		return c06input{Class: "INVALID", Kind: "long-request-line-no-version", Bytes: []byte(line + "\r\n\r\n" + validU())}
 	case 7:
 		m := []string{"POST", "X-SOCKETACE", "get"}[c.Pick(3, "method")]
 		return c06input{Class: "INVALID", Kind: "wrong-upgrade-method", Bytes: []byte(validA() + genUpgrade(c, m, "upgrade", "socketace/"+c06Version))}
